@@ -1330,6 +1330,11 @@ func (i *indexImpl) Close() error {
 	i.mutex.Lock()
 	defer i.mutex.Unlock()
 
+	if !i.open {
+		// already closed (closing scorch twice would close its closeCh twice)
+		return nil
+	}
+
 	indexStats.UnRegister(i)
 
 	i.open = false
